@@ -126,6 +126,11 @@ def run_case(res, case, attempt=0):
     class Server(tcpnet.TapServerMixin, applicationentity.AE):
         def on_association_request(self, asce, assoc):
             if triple is not None:
+                if extra.get('directory') is not None:
+                    # the application first asks a directory node (an association of its own,
+                    # requested from this very entity), then refuses
+                    with self.request_association(extra['directory']) as lookup:
+                        extra['lookup_status'] = int(lookup.get_scu(svc.VERIFICATION)(1))
                 raise exceptions.AssociationRejectedError(*triple)
 
         def on_receive_store(self, context, ds):
@@ -200,6 +205,23 @@ def run_case(res, case, attempt=0):
                     server.timeout = 5
                     server.add_scp(recording_echo)
                     server.add_scp(aborting_store if scenario == 'abort-by-acceptor-lib-lib' else plain_store)
+                    directory = None
+                    if scenario == 'reject-lib-lib' and k % 4 == 3:
+                        server.add_scu(sopclass.verification_scu)
+
+                        def directory_node(peer):
+                            peer.accept(max_len=16384)
+                            ctx, cmd, data, lengths, problems = peer.recv_dimse()
+                            peer.send_dimse(ctx, {R.TAG_AFFECTED_SOP_CLASS: svc.VERIFICATION,
+                                                  R.TAG_COMMAND_FIELD: 0x8030,
+                                                  R.TAG_MESSAGE_ID_RSP: cmd.get(R.TAG_MESSAGE_ID), R.TAG_STATUS: 0})
+                            nxt = peer.recv_pdu()
+                            if nxt['type'] == 5:
+                                peer.send_pdu({'type': 6})
+                        directory = tcpnet.PeerServer(directory_node)
+                        extra['directory_server'] = directory
+                        extra['directory'] = {'aet': 'DIRECTORY', 'address': '127.0.0.1', 'port': directory.port}
+                        res.count('sim.refusal-after-nested-association')
                     with tcpnet.serving(server):
                         remote = {'aet': 'C14SCP', 'address': '127.0.0.1', 'port': server.port}
                         if scenario == 'reject-then-hostile-request':
@@ -236,7 +258,8 @@ def run_case(res, case, attempt=0):
                                 client_error = exc
                         tcpnet.wait_quiet(0, 3.0)
                         wire['server_taps'] = [t for t in net.taps if t.role == 'server']
-                        wire['client_taps'] = [t for t in net.taps if t.role == 'client']
+                        wire['client_taps'] = [t for t in net.taps if t.role == 'client' and
+                                               getattr(t, 'peer_address', (None, server.port))[1] == server.port]
                         wire['handler_errors'] = list(getattr(server, 'handler_errors', []))
                 else:
                     def handler(peer):
@@ -326,6 +349,8 @@ def run_case(res, case, attempt=0):
                 extra['harness'] = traceback.format_exc()[-800:]
     finally:
         asceprovider.AssociationAcceptor.receive = orig_receive
+        if extra.get('directory_server') is not None:
+            extra.pop('directory_server').close()
     tcpnet.wait_quiet(0, 3.0)
     peer_timed_out = any('timed out' in e or 'TimeoutError' in e for e in wire.get('peer_errors', []))
     if (isinstance(client_error, exceptions.DCMTimeoutError) or peer_timed_out) and attempt < 2:
